@@ -56,6 +56,12 @@ class Gen:
         if after is not None:
             r["after"] = {"name": self.hname("after_" + action.lower()), "sig": after_sig or KW, "async": after_async,
                           "out": after}
+            if self.rng.random() < 0.3:
+                # a fresh pair of names whose hook is decorated (and so registered globally) first
+                self.n += 1
+                r["after_first"] = True
+                r["on"]["name"] = "z%d_on_%s" % (self.n, action.lower())
+                r["after"]["name"] = "a%d_after_%s" % (self.n, action.lower())
         return r
 
     def frame(self, uid, action, payload):
@@ -80,7 +86,8 @@ class Gen:
                 valid_reqs = [i for i in reqs if not i[2]]
                 bad_reqs = [i for i in reqs if i[2]]
                 valid_resps = [i for i in resps if not i[2]]
-                bad_resps = [i for i in resps if i[2]]
+                # a None inside a result object is stripped before validation: not a violation of that constraint
+                bad_resps = [i for i in resps if i[2] and "null" not in json.dumps(i[1])]
                 vr = valid_resps[0][1]
                 uid = rng.choice(["u-1", "", "ünï", "12345", "a" * 40])
                 others = [self.route(a2, ("ret", {})) for a2 in rng.sample(acts, 2) if a2 != action]
@@ -93,6 +100,11 @@ class Gen:
                                                                  is_async=rng.random() < 0.5, after=hv, after_sig=asig,
                                                                  after_async=rng.random() < 0.5)],
                               self.frame(uid, action, req)))
+                # 1b. the same kind of exchange while the connection refuses the write of the reply
+                if rng.random() < 0.5:
+                    cases.append(("send-fails", version, [self.route(action, ("ret", snake(vr)), after=("ret",),
+                                                                     after_async=rng.random() < 0.5)],
+                                  self.frame(uid, action, req), {"send_ok": False}))
                 # 2. valid request, explicit-parameter handler
                 if isinstance(req, dict):
                     sk = list(snake(req).keys())
@@ -105,13 +117,18 @@ class Gen:
                 # 3. invalid request (single violation): no handler, right code
                 for b in rng.sample(bad_reqs, min(2, len(bad_reqs))):
                     cases.append(("bad-req", version, others + [self.route(action, ("ret", snake(vr)), after=("ret",))],
-                                  self.frame(uid, action, b[1])))
+                                  self.frame(uid, action, b[1]), {"tags": b[2]}))
+                    # the same invalid CALL while ANOTHER route of the endpoint skips validation
+                    if others:
+                        sk = [dict(o, skip=True) for o in others]
+                        cases.append(("bad-req-other-skips", version, sk + [self.route(action, ("ret", snake(vr)), after=("ret",))],
+                                      self.frame(uid, action, b[1]), {"tags": b[2]}))
                 # 4. invalid result object
                 for b in rng.sample(bad_resps, min(2, len(bad_resps))):
                     if isinstance(b[1], dict):
                         cases.append(("bad-res", version, [self.route(action, ("ret", snake(b[1])), after=("ret",),
                                                                      is_async=rng.random() < 0.5)],
-                                      self.frame(uid, action, req)))
+                                      self.frame(uid, action, req), {"tags": b[2]}))
                 # 5. handler raises
                 e = rng.choice(OCPP_ERRORS)
                 cases.append(("raise-ocpp", version, [self.route(action, ("ocpp", e, rng.choice([None, "dëscr", ""]),
@@ -217,21 +234,28 @@ class Gen:
 
 
 # ------------------------------------------------------------------------------------------ evaluation
-def run_cases(rep, cases, tag, prop_id, oracle, async_modes=(False,), shard_size=120, view="VFull"):
+def norm(case):
+    return case if len(case) == 5 else tuple(case) + ({},)
+
+
+def run_cases(rep, cases, tag, prop_id, oracle, async_modes=(False,), shard_size=120, view="VFull", kinds=None):
     """cases: [(kind, version, routes, raw)]. Runs each on the implementation, asks the direct
     oracle, then compares with the model in Coq -- in the property's own view (a disagreement there
     is a broken correspondence) and in full (recorded in the evidence as model fidelity only)."""
     terms = []
     meta = []
-    for ci, (kind, version, routes, raw) in enumerate(cases):
+    for ci, (kind, version, routes, raw, info) in enumerate(map(norm, cases)):
+        if kinds is not None and not any(kind.startswith(k) for k in kinds):
+            continue
         for am in async_modes:
-            obs = D.observe_frame(version, routes, raw, async_validation=am)
+            send_ok = info.get("send_ok", True)
+            obs = D.observe_frame(version, routes, raw, async_validation=am, send_ok=send_ok)
             rep.count(json.dumps([version, repr(routes), repr(raw)], default=repr))
             rep.add("stratum:" + kind)
-            replay = {"kind": "dispatch", "version": version, "routes": routes,
+            replay = {"kind": "dispatch", "stratum": kind, "version": version, "routes": routes, "info": info,
                       "frame": raw if isinstance(raw, str) else {"hex": bytes(raw).hex()},
                       "async_validation": am, "observation": obs}
-            bad = oracle(kind, version, routes, raw, obs)
+            bad = oracle(kind, version, routes, raw, obs, info)
             for (key, what) in bad:
                 rep.violation("%s:%s" % (prop_id, key), what, replay)
             val, lo = D.loads_outcome(raw)
@@ -242,7 +266,7 @@ def run_cases(rep, cases, tag, prop_id, oracle, async_modes=(False,), shard_size
                     rep.violation("%s:unparseable-write:%s" % (prop_id, repr(raw)[:80]),
                                   "the endpoint wrote a frame that is not OCPP-J", replay)
                 continue
-            terms.append("mkD %s %s %s" % (D.ccfg(version, routes), lo, co))
+            terms.append("mkD %s %s %s %s" % (D.ccfg(version, routes), C.cbool(send_ok), lo, co))
             meta.append((kind, version, routes, raw, am, obs, bool(bad)))
     shards = [D.shard_source(terms[i:i + shard_size], view) for i in range(0, len(terms), shard_size)]
     outs = C.coq_eval_shards(tag, shards)
